@@ -1099,7 +1099,7 @@ fn gen_dimval(rng: &mut Rng) -> DimVal {
 }
 
 pub fn gen_trace(rng: &mut Rng, prop: &str, thorough: bool) -> SerdeTrace {
-    let max_dim = if thorough { 8 } else { 5 };
+    let max_dim = if rng.chance(1, 64) { 24 } else if thorough { 8 } else { 5 };
     let elem = *[ElemTy::U32, ElemTy::U32, ElemTy::I64, ElemTy::Str, ElemTy::OptU32, ElemTy::VecU32, ElemTy::Nested].get(rng.below(7)).unwrap();
     let (cols, rows) = match rng.below(10) {
         0 => (0, 0),
